@@ -5,11 +5,12 @@
 import StathamModel.Lemmas.VAlg
 import StathamModel.Eq
 import StathamModel.Parse
+import StathamModel.Lemmas.ListAux
 namespace Statham
 
 /-- a verdict function refines a Boolean validity function; not-passed never rejects -/
 def RC (f : CallG V) (g : JVal → Bool) : Prop :=
-  (∀ x, R (f (.val x)) (g x)) ∧ f .notPassed ≠ .reject
+  (∀ x, distinctKeys x = true → R (f (.val x)) (g x)) ∧ f .notPassed ≠ .reject
 
 theorem accCore_notPassed_ne_reject (env : Env) (c : Cls) (kw : Kw) (sub : VSub) :
     accCore env c kw sub .notPassed ≠ .reject := by
@@ -151,7 +152,7 @@ theorem acc_withDefault_val (env : Env) (e : Elem) (d : Option JVal) (v : JVal) 
 
 theorem RC_withDefault {env : Env} {e : Elem} {g : JVal → Bool} (h : RC (e.acc env) g) (d : Option JVal) :
     RC ((e.withDefault d).acc env) g :=
-  ⟨fun x => by rw [acc_withDefault_val]; exact h.1 x, acc_notPassed_ne_reject env _⟩
+  ⟨fun x hx => by rw [acc_withDefault_val]; exact h.1 x hx, acc_notPassed_ne_reject env _⟩
 
 /-! ### compositions -/
 
@@ -178,20 +179,21 @@ theorem acc_not_val (env : Env) (e : Elem) (v : JVal) :
 def RCs (env : Env) (es : List Elem) (gs : List (JVal → Bool)) : Prop :=
   All2 (fun e g => RC (e.acc env) g) es gs
 
-theorem RCs.vals {env : Env} {es : List Elem} {gs : List (JVal → Bool)} (h : RCs env es gs) (v : JVal) :
+theorem RCs.vals {env : Env} {es : List Elem} {gs : List (JVal → Bool)} (h : RCs env es gs) (v : JVal)
+    (hv : distinctKeys v = true) :
     All2 R ((accList env es).map fun f => f (.val v)) (gs.map fun g => g v) := by
   induction h with
   | nil => rw [accList]; exact All2.nil
-  | cons hr _ ih => rw [accList]; exact All2.cons (hr.1 v) ih
+  | cons hr _ ih => rw [accList]; exact All2.cons (hr.1 v hv) ih
 
 theorem RC_trivial (env : Env) : RC (Elem.trivial.acc env) (fun _ => true) :=
-  ⟨fun x => by rw [acc_trivial]; exact R.pass, by rw [acc_trivial]; simp⟩
+  ⟨fun x _ => by rw [acc_trivial]; exact R.pass, by rw [acc_trivial]; simp⟩
 
 theorem RC_nothing (env : Env) : RC (Elem.nothing.acc env) (fun _ => false) :=
-  ⟨fun x => by rw [acc_nothing_val]; exact R.reject, acc_notPassed_ne_reject env _⟩
+  ⟨fun x _ => by rw [acc_nothing_val]; exact R.reject, acc_notPassed_ne_reject env _⟩
 
 theorem RC.congr {f : CallG V} {g g' : JVal → Bool} (h : RC f g) (e : ∀ x, g x = g' x) : RC f g' :=
-  ⟨fun x => (h.1 x).congr (e x), h.2⟩
+  ⟨fun x hx => (h.1 x hx).congr (e x), h.2⟩
 
 theorem any_map_id {α : Type} (gs : List (α → Bool)) (v : α) : (gs.map fun g => g v).any id = gs.any fun g => g v := by
   induction gs with
@@ -212,67 +214,67 @@ theorem filter_map_id {α : Type} (gs : List (α → Bool)) (v : α) :
 /-- `_compose_elements(AnyOf, …)` on a non-empty list -/
 theorem RC_composeAny {env : Env} {es : List Elem} {gs : List (JVal → Bool)} (h : RCs env es gs)
     (hne : es ≠ []) : RC ((composeElements .anyOf es).acc env) (fun v => gs.any fun g => g v) := by
-  refine ⟨fun v => ?_, acc_notPassed_ne_reject env _⟩
+  refine ⟨fun v hv => ?_, acc_notPassed_ne_reject env _⟩
   cases h with
   | nil => exact absurd rfl hne
   | cons hr ht =>
     cases ht with
-    | nil => simpa [composeElements] using hr.1 v
+    | nil => simpa [composeElements] using hr.1 v hv
     | cons hr2 ht2 =>
       simp only [composeElements]
       rw [acc_compose_val env .anyOf rfl, ← any_map_id]
-      exact R_attempt_anyOf (RCs.vals (All2.cons hr (All2.cons hr2 ht2)) v)
+      exact R_attempt_anyOf (RCs.vals (All2.cons hr (All2.cons hr2 ht2)) v hv)
 
 theorem RC_composeOne {env : Env} {es : List Elem} {gs : List (JVal → Bool)} (h : RCs env es gs)
     (hne : es ≠ []) :
     RC ((composeElements .oneOf es).acc env) (fun v => (gs.filter fun g => g v).length == 1) := by
-  refine ⟨fun v => ?_, acc_notPassed_ne_reject env _⟩
+  refine ⟨fun v hv => ?_, acc_notPassed_ne_reject env _⟩
   cases h with
   | nil => exact absurd rfl hne
   | @cons e g es gs hr ht =>
     cases ht with
     | nil =>
       simp only [composeElements]
-      refine (hr.1 v).congr ?_
+      refine (hr.1 v hv).congr ?_
       cases hg : g v <;> simp [hg, List.filter]
     | cons hr2 ht2 =>
       simp only [composeElements]
       rw [acc_compose_val env .oneOf rfl, ← filter_map_id]
-      exact R_attempt_oneOf (RCs.vals (All2.cons hr (All2.cons hr2 ht2)) v)
+      exact R_attempt_oneOf (RCs.vals (All2.cons hr (All2.cons hr2 ht2)) v hv)
 
 theorem RC_composeAll {env : Env} {es : List Elem} {gs : List (JVal → Bool)} (h : RCs env es gs) :
     RC ((composeElements .allOf es).acc env) (fun v => gs.all fun g => g v) := by
-  refine ⟨fun v => ?_, acc_notPassed_ne_reject env _⟩
+  refine ⟨fun v hv => ?_, acc_notPassed_ne_reject env _⟩
   cases h with
   | nil => simp only [composeElements, List.all_nil]; rw [acc_trivial]; exact R.pass
   | cons hr ht =>
     cases ht with
-    | nil => simpa [composeElements] using hr.1 v
+    | nil => simpa [composeElements] using hr.1 v hv
     | cons hr2 ht2 =>
       simp only [composeElements]
       rw [acc_compose_val env .allOf rfl, ← all_map_id]
-      exact R_attempt_allOf (RCs.vals (All2.cons hr (All2.cons hr2 ht2)) v) (by simp)
+      exact R_attempt_allOf (RCs.vals (All2.cons hr (All2.cons hr2 ht2)) v hv) (by simp)
 
 /-- dropping the members that are `== Element()` does not change an `allOf` -/
 theorem RCs_filter_trivial {env : Env} {es : List Elem} {gs : List (JVal → Bool)} (h : RCs env es gs) :
     ∃ gs', RCs env (es.filter fun e => !e.isTrivial) gs' ∧
-      ∀ v, (gs'.all fun g => g v) = (gs.all fun g => g v) := by
+      ∀ v, distinctKeys v = true → (gs'.all fun g => g v) = (gs.all fun g => g v) := by
   induction h with
-  | nil => exact ⟨[], All2.nil, fun _ => rfl⟩
+  | nil => exact ⟨[], All2.nil, fun _ _ => rfl⟩
   | @cons e g es gs hr _ ih =>
     obtain ⟨gs', h', heq⟩ := ih
     by_cases ht : e.isTrivial = true
-    · refine ⟨gs', by simpa [List.filter, ht] using h', fun v => ?_⟩
+    · refine ⟨gs', by simpa [List.filter, ht] using h', fun v hv => ?_⟩
       have : g v = true := by
-        have := hr.1 v
+        have := hr.1 v hv
         rw [acc_isTrivial env e ht] at this
         rcases this with h0 | h0
         · cases h0
         · exact V.ofBool_eq_pass.mp h0.symm
-      simp [heq v, this]
+      simp [heq v hv, this]
     · refine ⟨g :: gs', by
         have := (All2.cons (r := fun (e : Elem) g => RC (e.acc env) g) hr h')
-        simpa [List.filter, ht, RCs] using this, fun v => ?_⟩
-      simp [heq v]
+        simpa [List.filter, ht, RCs] using this, fun v hv => ?_⟩
+      simp [heq v hv]
 
 end Statham
